@@ -205,11 +205,43 @@ JudgeSeq(r, LSeq) ==
         UNION {{PathStr(Prefix(LSeq[k], n)) : n \in 1..(Len(LSeq[k].comps) - 1)} : k \in DOMAIN LSeq},
         IF r.single THEN {PathStr(LSeq[k]) : k \in DOMAIN LSeq} ELSE {})
 
-JudgeOn(r, P, U) == JudgeSeq(r, SetToSeq({p \in U : Listed(P, EffPath(r, p))}))
+\* The entries of the universe each pattern names are computed once (NS[i], an explicit set); a
+\* path matches pattern i when it or one of its ancestors is in NS[i] -- this is Matches/Listed
+\* above, arranged so that TLC does the expensive part once per (pattern, entry).
+NamedOf(pat, r, U) == ToSet(SetToSeq({q \in U : Names(pat, EffPath(r, q))}))
+RECURSIVE NamedAll(_, _, _, _)
+NamedAll(P, r, U, i) == IF i > Len(P) THEN <<>> ELSE <<NamedOf(P[i], r, U)>> \o NamedAll(P, r, U, i + 1)
+
+InM(P, NS, i, p) ==
+  \/ p.abs /\ P[i].abs /\ Exact(P[i].parts, <<>>)
+  \/ \E n \in 1..Len(p.comps) : Prefix(p, n) \in NS[i]
+ListedNS(P, NS, p) ==
+  \E i \in 1..Len(P) :
+     /\ ~P[i].neg
+     /\ InM(P, NS, i, p)
+     /\ \A j \in (i + 1)..Len(P) : P[j].neg => ~InM(P, NS, j, p)
+
+JudgeNS(r, P, U, NS) == JudgeSeq(r, SetToSeq({p \in U : ListedNS(P, NS, p)}))
+JudgeOn(r, P, U) == JudgeNS(r, P, U, NamedAll(P, r, U, 1))
+
+\* the arrangement above is the declarative definition (checked by TLC in Fn_GlobDesign)
+ArrangementOK(r, P, U) ==
+  {p \in U : ListedNS(P, NamedAll(P, r, U, 1), p)} = {p \in U : Listed(P, EffPath(r, p))}
+
+RecBad(r) == \E i \in DOMAIN r.pats : BadPat(r.pats[i])
+RecU(r)   == Paths(ToSet(r.alpha), r.depth)
 
 RecOK(r) ==
   /\ ~r.panic
-  /\ LET bad == \E i \in DOMAIN r.pats : BadPat(r.pats[i]) IN
-     /\ r.valerr = bad
-     /\ bad \/ JudgeOn(r, EffPats(r), Paths(ToSet(r.alpha), r.depth))
+  /\ r.valerr = RecBad(r)
+  /\ RecBad(r) \/ JudgeOn(r, EffPats(r), RecU(r))
+
+\* what the model expects for a record (for violation reports): accepted paths and the directories
+\* above them
+ExpectedL(r) ==
+  IF RecBad(r) THEN {} ELSE {PathStr(p) : p \in {p \in RecU(r) : Listed(EffPats(r), EffPath(r, p))}}
+ExpectedNeed(r) ==
+  IF RecBad(r) THEN {}
+  ELSE UNION {{PathStr(Prefix(p, n)) : n \in 1..(Len(p.comps) - 1)} :
+                 p \in {p \in RecU(r) : Listed(EffPats(r), EffPath(r, p))}}
 =============================================================================
